@@ -13,8 +13,13 @@ ASSUMPTIONS = [
     'in Cursor.execute the parser, compiler and executor (and isinstance) are opaque pure callables identified by their '
     'qualified names in the generated refs table (the theorem is conditional on what their composition returns); '
     'Column._vars holds operator.attrgetter objects, assumed to read the property of that name (getters_ok); '
-    'Column.__getitem__ is tied for integer keys (the slice branch subscripts a tuple with a slice object, outside the '
-    'fragment: covered by the correspondence only); Cursor.executemany calls self.execute, a state-changing call on the '
+    'Column.__getitem__: group cursor ties it for integer keys; group column (src_column.py, Gen/SrcColumn.v: the same '
+    'method translated alone with ApiTranslator, subscripts as the primitive "getitem") ties the slice branch for ALL '
+    'slices (C10_source_column_slice) - trusted there: Model/PrimsColumn.v (a slice object is a record tagged '
+    'builtins.slice; a tuple subscripted with it is Cursor.py_slice; tuple(list)); C10_source_column_protocol: the live '
+    'class resolves __iter__/__contains__/__reversed__/index/count to the collections.abc.Sequence mix-ins, whose '
+    'definition through __getitem__/__len__ is trusted standard-library behaviour; Column.__eq__ is not translated '
+    '(correspondence only); Cursor.executemany calls self.execute, a state-changing call on the '
     'receiver the fragment cannot express: C10_source_executemany ties the SHAPE of its source (parse once, then '
     'self.execute(query, p) for every p in order) and proves that running the translated execute as that loop prescribes is '
     'the model\'s fold; Cursor.__iter__: builtins.iter is an opaque callable (the callable-iterator protocol is the model\'s '
@@ -409,4 +414,6 @@ def replay(rec):
 def generate():
     """translator tie: regenerate coq/Gen/SrcCursor.v from the source of the imported code (py2mini)"""
     from . import gen_src
-    return gen_src.generate('cursor')
+    out = gen_src.generate('cursor')
+    out.update(gen_src.generate('column'))      # bld-misc: Column.__getitem__ with the subscript primitive
+    return out
